@@ -100,6 +100,10 @@ PAYLOADS = [
     '(acc := [r for r in orders]) and sum([[q for q in orders] for o in orders], acc) and len(acc) == 2',
     'sum([[q for q in orders] for o in orders], [r for r in orders])', 'sum([r.n for r in orders], 0)',
     'max(orders, orders)', 'min(orders, [r for r in orders])', 'orders + orders', '[r for r in orders][0]', 'next((r for r in orders), orders)',
+    # a loop variable does not exist outside its comprehension / generator: reading it afterwards fails (it is not some leftover object)
+    'r if sum(r.n for r in orders) > 0 else 0', 'trim(r) if all(r.n > 0 for r in orders) else ""', '[r.n for r in orders] and r',
+    'sum(q.n for q in orders) + len(q)', 'max(w.amount for w in orders) > 0 and w', 'any(z.n > 5 for z in orders) or z',
+    '(x := 1) and sum(x for x in orders if false) == 0 and x', 'min(amount for amount in orders if false) or amount',
     # queries over rows of different width: reading (or merely walking past) a short row leaves it as short as it was
     '[r.item for r in ledger]', 'sum(1 for r in ledger)', 'any(r.item == "zz" for r in ledger)', '[r.status for r in ledger]',
     'next((r.item for r in ledger if r.item == "Late"), "none")', 'len([r for r in ledger if r.item != "x"]) == 3',
